@@ -7,15 +7,15 @@
 
    C20_sufficient: for every list of assertions of the explainable fragment
      (Boolean / temporal structure over predicates: not, and, or, implies,
-     (bounded) eventually / always / once / historically, prev, next; iff/xor
-     only over polarity-insensitive operands), every trace w, and every trace
+     (bounded) eventually / always / once / historically, prev, next, rise, fall;
+     iff/xor only over polarity-insensitive operands), every trace w, and every trace
      w' that coincides with w on all reported (variable, sample) positions,
      every assertion violated at time 0 on w is violated at time 0 on w'.
    C20_silent: if every assertion is satisfied at time 0 nothing is reported.
    C20_total: on that fragment explain() does not raise.
-   C20_refuted_rise / C20_refuted_iff: outside the fragment the statement is
-     false of the faithful model (the two open known findings), with the
-     witnesses replayed on the implementation by the check. *)
+   C20_refuted_iff: outside the fragment the statement is false of the
+     faithful model (the open known finding), with the witness replayed on the
+     implementation by the check. *)
 From Coq Require Import List Arith ZArith Lia.
 From RV Require Import Val Syntax Rho Sat Explain ExplainFacts ExplainCorrect ExtZ ExtZFacts.
 Import ListNotations.
@@ -46,19 +46,16 @@ Print Assumptions C20_total.
 
 Definition std : @formula ExtZVal -> @formula ExtZVal -> pkind := fun _ _ => PStd.
 
-(* rise depends on the previous sample with the opposite polarity: next(rise(x)) *)
-Theorem C20_refuted_rise :
-  exists (p : @formula ExtZVal) (w w' : trace) (tb : table),
-    explain ExtZArith std w 2 [p] = Some tb /\
-    (forall x j, inI j (tb_get x tb) = true -> sig w' x j = sig w x j) /\
-    ltb (rho ExtZArith std p w 2 0) (Fin 0) = true /\ ltb (rho ExtZArith std p w' 2 0) (Fin 0) = false.
-Proof.
-  exists (Next (Rise (Var 0))), [[Fin 1; Fin 0]], [[Fin (-1); Fin 0]], [(0, [(1, 1)])].
-  split; [vm_compute; reflexivity|]. split; [|split; vm_compute; reflexivity].
-  intros x j H. destruct x as [|x]; [|destruct x; discriminate].
-  destruct j as [|[|j]]; try discriminate; reflexivity.
-Qed.
-Print Assumptions C20_refuted_rise.
+(* rise / fall: the previous sample is explored with the opposite polarity (repair D42; before it, next(rise(x)) on
+   [1; 0] reported only sample 1 and the violation disappeared on [-1; 0]) *)
+Example C20_rise_fall :
+  let p : @formula ExtZVal := Next (Rise (Var 0)) in
+  let q : @formula ExtZVal := Alw (Not (Fall (Pred CGeq (Var 0) (Const (Fin 1))))) in
+  explainable p = true /\ explainable q = true /\
+  explain ExtZArith std [[Fin 1; Fin 0]] 2 [p] = Some [(0, [(0, 1)])] /\
+  ltb (rho ExtZArith std q [[Fin 3; Fin 0; Fin 2]] 3 0) (Fin 0) = true /\
+  explain ExtZArith std [[Fin 3; Fin 0; Fin 2]] 3 [q] = Some [(0, [(0, 1)])].
+Proof. cbv zeta. repeat split; vm_compute; reflexivity. Qed.
 
 (* the operands of iff are explored with the polarity of the iff: ((x and x) iff y) *)
 Theorem C20_refuted_iff :
